@@ -225,14 +225,15 @@ Definition enc_rawnode (n : rawnode) : list N :=
   enc_raft (rn_raft n)
   ++ [SEC_RAWNODE; ss_leader_id (rn_prev_ss n); enc_role (ss_role (rn_prev_ss n))]
   ++ enc_hs (rn_prev_hs n) ++ [rn_max_number n]
-  ++ enc_seq (fun rr => [rr_number rr] ++ enc_opt_pair (rr_last_entry rr) ++ enc_opt_pair (rr_snapshot rr))
+  ++ enc_seq (fun rr => [rr_number rr] ++ enc_opt_pair (rr_last_entry rr) ++ enc_opt_pair (rr_snapshot rr)
+                        ++ [enc_bool (rr_hs_changed rr)])
              (rn_records n)
   ++ [rn_commit_since_index n].
 
 Definition prawnode : P rawnode :=
   r <~ praft ;;
   _ <~ pexpect SEC_RAWNODE ;; sl <~ pnum ;; sr <~ pnum ;; ph <~ phs ;; mn <~ pnum ;;
-  recs <~ pseq (a <~ pnum ;; b <~ popt_pair ;; c <~ popt_pair ;; pret (mkRR a b c)) ;;
+  recs <~ pseq (a <~ pnum ;; b <~ popt_pair ;; c <~ popt_pair ;; d <~ pbool ;; pret (mkRR a b c d)) ;;
   csi <~ pnum ;;
   pret (mkRN r (mkSS sl (dec_role sr)) ph mn recs csi).
 
